@@ -109,6 +109,11 @@ pub trait Blockstore {
     fn get_last_slice_index(&self, block_id: &BlockId) -> Option<SliceIndex>;
     fn get_slice_root(&self, block_id: &BlockId, slice: SliceIndex) -> Option<SliceRoot>;
     fn cached_commitment(&self, slot: Slot, slice: SliceIndex) -> Option<SliceCommitment>;
+    /// Verification hook: (number of shreds stored for the slot's disseminated block, leader flagged as misbehaving).
+    #[cfg(feature = "verif-hooks")]
+    fn verif_slot_probe(&self, _slot: Slot) -> (usize, bool) {
+        (0, false)
+    }
     fn get_shred<'a>(
         &'a self,
         block_id: &BlockId,
@@ -419,6 +424,19 @@ impl Blockstore for BlockstoreImpl {
     ///
     /// Lets the dissemination path short-circuit verification for the same slice.
     /// This is also what allows us to detect leader equivocation.
+    #[cfg(feature = "verif-hooks")]
+    fn verif_slot_probe(&self, slot: Slot) -> (usize, bool) {
+        self.slot_data(slot).map_or((0, false), |s| {
+            let cnt = s
+                .disseminated
+                .shreds
+                .values()
+                .map(|shreds| shreds.iter().filter(|s| s.is_some()).count())
+                .sum();
+            (cnt, s.verif_leader_misbehaved())
+        })
+    }
+
     fn cached_commitment(&self, slot: Slot, slice: SliceIndex) -> Option<SliceCommitment> {
         self.slot_data(slot)?
             .disseminated
